@@ -366,5 +366,5 @@ def run(tier="quick"):
                        "samplers away from closed parameter boundaries"]
     for m in models[:1]:
         rep.configs.append(m.config)
-        rules(rep, m)
+        common.run_rules(rep, m, rules)
     return rep.finish()
